@@ -1,3 +1,2 @@
 #!/bin/bash
-# regenerate + build the loom mirror (dev helper)
-python3 /verif/engines/mirror/mirror.py loom ${VX_REPO:-/repo} /tmp/vx-mirror-loom-0 >/dev/null && cd /tmp/vx-mirror-loom-0 && CARGO_TARGET_DIR=/verif/target/loomx cargo build --release 2>&1 | grep -E '^error' -A12 | head -80
+python3 /verif/tools/vxbuild.py loom 2>&1 | grep -E "^error|BUILD FAILED" -A12 | head -60
